@@ -27,6 +27,16 @@ CHECKS = {
               'wake-up, release exactly at last reference, shutdown) are evaluated on the real structure.'),
         note=('Trusted: Coq kernel; extraction + OCaml driver; atomicity of the mutex-protected sections and POSIX semaphore semantics; gcc. The refinement ring layer -> deque layer is checked by the lockstep run, not yet proved; '
               'live counts / shutdown are in the ring model only. Threads blocked in get_empty are not woken by shutdown on the pinned tree (documented baseline behaviour, not exercised as a violation).')),
+    'C24': dict(
+        category='proof', design_ref='DESIGN.md §6 C24',
+        technique='Coq protocol theorems (all interleavings) + verified decidable checker applied to the arrays the real init code produces for every grid of the domain',
+        text=('For every grid accepted by grid_ok_b (proved sound in Coq): every reachable state of the assignment protocol - any number of workers, any interleaving of the two critical sections and the feedback tasks - '
+              'satisfies the invariant, no segment starts before its left / upper neighbour segments have finished, a state with no enabled step has every segment done (completion), the per-segment superblock walks '
+              'cover every superblock exactly once, and each superblock is walked after its left / upper / upper-left / upper-right neighbours. The extracted checker is run on the arrays the REAL enc_dec_segments_init '
+              'writes, for all tile-group sizes 1..65 x 1..34 and 1..33 x 1..17 with the segment counts the encoder derives plus seeded arbitrary counts; a rejected grid is searched for a concrete failing schedule.'),
+        note=('Trusted: Coq kernel; extraction with ExtrOcamlBasic + ExtrOcamlNatInt (nat => OCaml int, values < 2^20) for this checker; the transcription of the superblock walk and of assign_enc_dec_segments into '
+              'SegGrid.v/SegProto.v (the init arrays themselves come from the real code on every run); atomicity of the two mutex-protected sections; gcc. "Earlier segment" in the walk-order theorem is the '
+              'row<= / band<= order, which the protocol respects by seg_dependency_sound applied transitively (the transitive step is not a separate theorem yet).')),
 }
 
 NOT_BUILT_REASON = 'check not built yet in this development (work in progress); no claim is made'
